@@ -88,7 +88,15 @@ def run(ctx):
                     "candidate images are not the inclusive range d..=min(size + 1, max_size): %s" % (r and (show(r[0], 1)[:30], show(r[1], 1)[:60], r[2]),), ch.span_of(bi))
 
     for h, e, it in loops_in(ch):
-        extra = sorted(loop_carried_mutables(ch, h, e) - {"iter", "result", "new2old", "old2new"})
+        scratch = set()
+        for bi_, t_ in ch.calls("check_canonicity"):
+            for a_ in t_["args"][2:4]:
+                o_ = strip(ch.origin(a_))
+                while o_[0] == "call" and o_[2]:
+                    o_ = strip(o_[2][0])
+                if o_[0] == "local":
+                    scratch.add(o_[1])
+        extra = unexpected_carried_state(ch, h, e, scratch)
         ctx.ob("T3-per-child-state", ch.name, "loop-carried state", "ok" if not extra else "violation",
                "only the result vector and the two scratch renumbering buffers are carried between candidates" if not extra else
                "state %s is carried from one candidate image to the next" % extra)
